@@ -106,7 +106,7 @@ def _make_wrapper(name, orig):
             ba.apply_defaults()
             rec = dict(ba.arguments)
             x = rec.pop(first)
-            lines.append('call %s %s' % (name, _cfg.safe_wire(rec)))
+            lines.append('call %s %s' % (name, _cfg.safe_wire(_sorted_keys(rec))))
         except TypeError:
             lines.append('call %s !unbindable' % name)
         _STATE['active'][name] = _STATE['active'].get(name, 0) + 1
@@ -137,7 +137,7 @@ def _make_wrapper(name, orig):
             finally:
                 _STATE['busy'] = False
             if not ok:
-                lines.append('mismatch %s %s' % (name, _cfg.safe_wire(rec)))
+                lines.append('mismatch %s %s' % (name, _cfg.safe_wire(_sorted_keys(rec))))
         _append(d, lines)
         return out
     functools.update_wrapper(wrapper, orig)
@@ -755,7 +755,7 @@ class Signatures(Stream):
             if n_.startswith('_'):
                 # private helper: only the parameters the model binds positionally must be where the model expects them
                 live = dict(list(live.items())[:len(model[n_])])
-            if _cfg.wire(model[n_]) != _cfg.wire(live):
+            if _canon_wire(model[n_]) != _canon_wire(live):       # as values: key order of (nested) dictionaries is not compared
                 return '%s: live signature %s, model %s' % (n_, _cfg.unwire(out[n_]), model[n_])
         return None
 
